@@ -112,13 +112,32 @@ def pin_to_bytes_rule(ctx, rep, rule="digits"):
     # reverse out[0..i] and return out[0..i]
     calls = [se.term_info[b] for b in sorted(se.term_info) if se.term_info[b].get("k") == "call"]
     names = [c["name"].split("::")[-1] for c in calls]
-    rng_ok = True
-    for c in calls:
-        if c["name"].endswith("::index_mut"):
-            r = strip(c["args"][1])
-            rng_ok = rng_ok and r[0] == "agg" and r[2] == "std::ops::Range" and N(r[4][0], env) == I(0) and N(r[4][1], env) == S("i")
-    ret = strip(se.ret)
-    good = names == ["index_mut", "reverse", "index_mut"] and rng_ok and util.is_call(ret) and ret[1].endswith("::index_mut")
+
+    def is_view(t):
+        """t (stripped) is the prefix out[0..i]: out[0..i] / out[..i] / out.split_at_mut(i).0"""
+        if util.is_call(t) and t[1].endswith("::index_mut") and len(t[2]) == 2:
+            r = strip(t[2][1])
+            if r[0] == "agg" and r[2] == "std::ops::Range":
+                return N(r[4][0], env) == I(0) and N(r[4][1], env) == S("i")
+            if r[0] == "agg" and r[2] == "std::ops::RangeTo":
+                return N(r[4][0], env) == S("i")
+            return False
+        if t[0] == "field" and t[2] == 0 and util.is_call(t[1]) and t[1][1].endswith("<impl [T]>::split_at_mut"):
+            return N(t[1][2][1], env) == S("i")
+        return False
+
+    views = [c for c in calls if c["name"].endswith("::index_mut") or c["name"].endswith("<impl [T]>::split_at_mut")]
+    revs = [c for c in calls if c["name"].endswith("<impl [T]>::reverse")]
+    others = [c for c in calls if c not in views and c not in revs]
+    good = False
+    if len(revs) == 1 and not others and 1 <= len(views) <= 2:
+        la = revs[0]["locargs"][0]
+        recv = strip(la[1][1]) if la[0] == "ref" and la[1][0] == "deref" else None
+        # every view is of the output array, the reverse acts on a prefix view, a prefix view is returned
+        on_out = all(strip(v["locargs"][0])[0] == "param" or v["locargs"][0] == ("ref", ("deref", ("param", 2)), True) for v in views)
+        good = recv is not None and is_view(recv) and is_view(strip(se.ret)) and on_out
+        # a view taken before the reverse and returned, or a fresh one of the same range afterwards
+        good = good and all(is_view(strip(v["term"])) or is_view(("field", strip(v["term"]), 0)) for v in views)
     rep.check(good, rule, fn, "reverse", "out[0..i] is reversed (most significant digit first) and returned", "the digits are not reversed in place / the returned slice is not out[0..i]", body.loc())
 
 
@@ -132,6 +151,8 @@ def remap_pin_grid_rule(ctx, rep, rule="layout"):
         return
     body = se.body
     fi = for_info(ctx, se)
+    if len(fi) == 0 and remap_from_fn(ctx, rep, rule, fn, se):
+        return
     if len(fi) not in (1, 2):
         rep.violation(rule, fn, "shape", "expected the radix loop (and optionally an inner gap-closing loop), found %d loops" % len(fi), body.loc())
         return
@@ -204,6 +225,82 @@ def remap_pin_grid_rule(ctx, rep, rule="layout"):
     rep.check(good, rule, fn, "step", "r = seed % i; result[k] = digits[r]; seed /= i; digits[r+1..i] moved one place down", "layout generation step differs from the factorial-base decoding: %s" % {k: (arith.show(v) if isinstance(v, tuple) and v and isinstance(v[0], str) else str(v)) for k, v in got.items() if got[k] != want[k]}, body.loc())
     r = strip(se.ret)
     rep.check(r == remapped[1] or r == strip(remapped[1]), rule, fn, "result", "the permuted layout is returned", "the returned array is not the generated layout", body.loc())
+
+
+def remap_from_fn(ctx, rep, rule, fn, se):
+    """the layout produced front to back by core::array::from_fn(|k| ..) with a closure that
+    carries (seed, remaining digits) in captured variables: call k is iteration k of the radix
+    loop, with i = 10 - k.  Returns False when the body is not of that shape."""
+    body = se.body
+    r = strip(se.ret)
+    if not (util.is_call(r) and r[1] in ("std::array::from_fn", "core::array::from_fn")):
+        return False
+    info = se.term_info.get(r[3][1], {})
+    cl = info.get("locargs", info.get("args", (("?",),)))[0]
+    n = [a.get("val") for a in body.blocks[r[3][1]]["term"].get("resolved_args", []) if "const" in a]
+    if not (cl[0] == "agg" and cl[1] == "closure" and len(cl[4]) == 2 and n and n[0] == 10):
+        return False
+    st = se.in_state.get(r[3][1], {})
+    roles = {}
+    for k_, c in enumerate(cl[4]):
+        if c[0] == "ref" and c[2] and c[1][0] == "local":
+            v = strip(util.value_before_terminator(se, r[3][1], c[1]))
+            if v == ("param", 1):
+                roles["seed"] = k_
+            elif v[0] == "agg" and v[1] == "array" and [x[1] for x in v[4]] == list(range(10)):
+                roles["grid"] = k_
+    rep.check(set(roles) == {"seed", "grid"}, rule, fn, "radices", "from_fn over k = 0..10 with the closure carrying (seed, digits [0..9]); radix i = 10 - k", "from_fn closure does not start from (the seed parameter, the digits 0..9)", body.loc())
+    if set(roles) != {"seed", "grid"}:
+        return True
+    cse = ctx.wrap.run(cl[2])
+    if cse is None:
+        rep.violation(rule, fn, "shape", "closure body not analysable", body.loc())
+        return True
+    env1 = ("deref", ("param", 1)) if cse.body.local_ty(1).k == "ref" else ("param", 1)
+    root = {k: ("deref", ("field", env1, v)) for k, v in roles.items()}
+    fin = list(cse.final_states.values())
+    if len(fin) != 1:
+        rep.violation(rule, fn, "shape", "closure has several exits", cse.body.loc())
+        return True
+    seed_step = fin[0].get(root["seed"])
+    grid_step = fin[0].get(root["grid"])
+    env = {strip(root["seed"]): "seed", strip(root["grid"]): "G", ("param", 2): "k"}
+    i_expr = ("sub", I(10), S("k"))
+    rem = ("rem", S("seed"), i_expr)
+    got = {"seed": N(seed_step, env) if seed_step is not None else None, "R": N(cse.ret, env)}
+    want = {"seed": ("Div", S("seed"), i_expr), "R": ("idx", S("G"), rem)}
+    shift = None
+    cfi = for_info(ctx, cse)
+    inner = [(h, e, s_) for h, (e, s_, lp) in cfi.items() if s_ is not None and s_[0] == "agg" and s_[2] == "std::ops::Range"]
+    gstep = strip(grid_step) if grid_step is not None else ("?",)
+    if len(inner) == 1 and gstep[0] == "phi" and gstep[2] == inner[0][0]:
+        ih, ielem, isrc = inner[0]
+        ist = loop_state(cse, ih)
+        if root["grid"] in ist:
+            ginit, gs = ist[root["grid"]]
+            env2 = dict(env)
+            env2[phi_of(cse, ih, root["grid"])] = "Gi"
+            env2[ielem] = "j"
+            ok = (N(gs, env2) == ("upd", S("Gi"), comm(("add", rem, S("j"))), ("idx", S("Gi"), comm(("add", ("add", rem, S("j")), I(1)))))
+                  and N(ginit, env2) == S("G") and tuple(N(x, env2) for x in isrc[4]) == (I(0), ("sub", ("sub", i_expr, rem), I(1))))
+            if ok:
+                shift = ("shift", rem, i_expr)
+    elif gstep[0] == "after" and util.is_call(gstep[1]) and gstep[1][1].endswith("::copy_within") and gstep[2] == 0:
+        c = gstep[1]
+        r_ = strip(c[2][1])
+        if r_[0] == "agg" and r_[2] == "std::ops::Range":
+            lo, hi, dst = N(r_[4][0], env), N(r_[4][1], env), N(c[2][2], env)
+            if lo == comm(("add", rem, I(1))) and hi == i_expr and dst == rem:
+                shift = ("shift", rem, i_expr)
+    got["gap"] = shift
+    want["gap"] = ("shift", rem, i_expr)
+    want = {k_: comm(v) for k_, v in want.items()}
+    good = got == want
+    rep.check(good, rule, fn, "step", "call k: r = seed % (10-k); result[k] = digits[r]; seed /= (10-k); digits[r+1..10-k] moved one place down", "layout generation step differs from the factorial-base decoding: %s" % {k_: (arith.show(v) if isinstance(v, tuple) and v and isinstance(v[0], str) else str(v)) for k_, v in got.items() if got[k_] != want[k_]}, cse.body.loc())
+    # nothing else is written by the closure, and the array it fills is what is returned
+    extra = [k_ for k_ in fin[0] if k_[0] == "deref" and k_ not in root.values()]
+    rep.check(not extra, rule, fn, "result", "the permuted layout (the from_fn array) is returned", "the closure writes other state: %s" % [show(k_) for k_ in extra], body.loc())
+    return True
 
 
 # ------------------------------------------------------------------------------------ generate_coordinates
@@ -306,6 +403,16 @@ def generate_coordinates_rule(ctx, rep, rule="distinct"):
         if r_[0] == "agg" and r_[2] == "std::ops::Range":
             lo, hi, dst = N(r_[4][0], env), N(r_[4][1], env), N(c[2][2], env)
             if lo == comm(("add", pick, I(1))) and hi == cnt and dst == pick:
+                shift = ("shift", pick, cnt)
+    # Vec::remove(pick): yields table[pick] and moves everything behind it one place down; the
+    # table then holds exactly the size - r cells not drawn yet (one removal per round, no other
+    # change of the table), so the cells moved are pick+1 .. size-r
+    cstep = strip(coords[3])
+    if shift is None and tstep[0] == "after" and util.is_call(tstep[1], "std::vec::Vec::<T, A>::remove") and tstep[2] == 0 and tstep[3] == table[1]:
+        rm = tstep[1]
+        if cstep[0] == "upd" and cstep[1] == coords[1] and cstep[2][0] == "i" and strip(cstep[3]) == rm:
+            got["C"] = ("upd", S("C"), N(cstep[2][1], env), ("idx", S("T"), N(rm[2][1], env)))
+            if N(rm[2][1], env) == pick:
                 shift = ("shift", pick, cnt)
     got["gap"] = shift
     want["gap"] = ("shift", pick, cnt)
